@@ -1,7 +1,8 @@
 // Package c09 is the runtime monitor of property C09 (bitmap1024: serialization and
 // block-integer mapping round-trip).
 //
-// Five kinds, one per clause of the statement:
+// Kinds, one per clause of the statement (conc-marshal: clause 1 with several goroutines
+// working on their own bitmaps at the same time):
 //
 //	marshal    Marshal -> Unmarshal into a fresh bitmap reproduces the bitmap (sparse and dense)
 //	unmarshal  Unmarshal of arbitrary bytes (length 0..130): no panic; error, or exactly the denoted set
@@ -50,6 +51,7 @@ var Prop = &engine.Prop{
 		{Name: "bigu32", Quick: 2400, Thorough: 240000, Fn: bigCase},
 		{Name: "u32tip", Quick: 2000, Thorough: 200000, Fn: tipCase},
 		{Name: "lists", Quick: 1200, Thorough: 120000, Fn: listCase},
+		{Name: "conc-marshal", Quick: 120, Thorough: 6000, Fn: concMarshalCase},
 	},
 	// All counters are pure functions of (seed, case counts); floors are ~1/10 of
 	// what seed 1 quick reaches.
